@@ -186,6 +186,76 @@ fn case_generic<F: Fl>(c: &Case, obs: &mut Obs) -> PResult {
         }
     }
 
+    // ---------- scaling to the edges of the range ("all exponents that avoid overflow/underflow"): the largest e for
+    // which n * max(x)^2 * 4^e stays 8 binades below the overflow threshold, and the smallest for which the squares
+    // of the smallest non-zero observations (and the variance-level quantities) stay normal
+    {
+        let (emin, emax, n_all) = {
+            let (mut lo, mut hi) = (i32::MAX, i32::MIN);
+            for x in a.iter().chain(b_full.iter()) {
+                let v = x.to64().abs();
+                if v != 0.0 {
+                    let e = v.log2().floor() as i32;
+                    lo = lo.min(e);
+                    hi = hi.max(e + 1);
+                }
+            }
+            (lo, hi, a.len().max(b_full.len()).max(2) as f64)
+        };
+        if emin != i32::MAX {
+            let (max_exp, min_exp): (i32, i32) = if F::IS32 { (127, -126) } else { (1023, -1022) };
+            let e_hi = ((max_exp - 8) as f64 - n_all.log2()).div_euclid(2.0) as i32 - emax;
+            let e_lo: i32 = (min_exp + 8).div_euclid(2) - emin + 30;
+            let wide_ok = |var: f64, n: usize, e: i32| -> bool {
+                if var == 0.0 {
+                    return true;
+                }
+                let lim = if F::IS32 { 110 } else { 990 };
+                let ok = |v: f64| v >= pow2(-lim) && v <= pow2(lim);
+                let s = pow2(2 * e);
+                ok(var / n as f64 * s) && ok(var * s) && ok(var) && ok(var / n as f64)
+            };
+            let dvar = {
+                let d: Vec<f64> = ap.iter().zip(bp.iter()).map(|(x, y)| (*x - *y).to64()).collect();
+                MeanRef::new(&d)
+            };
+            for (which, e) in [("upper", e_hi), ("lower", e_lo)] {
+                if e == 0 || (which == "upper" && e < 0) || (which == "lower" && e > 0) {
+                    continue;
+                }
+                let s = F::from64(pow2(e));
+                if !s.to64().is_finite() || s.to64() == 0.0 {
+                    continue;
+                }
+                let sc = |d: &Vec<F>| -> Vec<F> { d.iter().map(|x| *x * s).collect() };
+                if wide_ok(ra.var, ra.n, e) {
+                    obs.eval();
+                    match arith::<F>(&c.conf, &sc(&a)) {
+                        Out::Ok(i) => {
+                            if let Err(msg) = scaled_eq::<F>(ia, &i, e, 0) {
+                                return crate::engine::fail(format!("C16/scaling_edge/arithmetic/{kn}"), format!("{} ({which} edge of the range): {msg}", F::NAME));
+                            }
+                            obs.class(&format!("scaling/edge-{which}/arithmetic"));
+                        }
+                        o => return crate::engine::fail("C16/scaling_edge/arithmetic/rejected", format!("{} scaled by 2^{e} ({which} edge): {}", F::NAME, o.describe())),
+                    }
+                }
+                if wide_ok(dvar.var, dvar.n, e) && ap.len() >= 2 {
+                    obs.eval();
+                    match paired::<F>(&c.conf, &sc(&ap), &sc(&bp)) {
+                        Out::Ok(i) => {
+                            if let Err(msg) = scaled_eq::<F>(ip, &i, e, 0) {
+                                return crate::engine::fail(format!("C16/scaling_edge/paired/{kn}"), format!("{} ({which} edge of the range): {msg}", F::NAME));
+                            }
+                            obs.class(&format!("scaling/edge-{which}/paired"));
+                        }
+                        o => return crate::engine::fail("C16/scaling_edge/paired/rejected", format!("{} scaled by 2^{e} ({which} edge): {}", F::NAME, o.describe())),
+                    }
+                }
+            }
+        }
+    }
+
     // ---------- negation: CI(c, -x) = -mirror(CI(c.flipped(), x)), exactly
     {
         obs.evals(3);
@@ -571,7 +641,7 @@ pub fn run(run: &mut Run) {
         PermCase { f32: f32_, values: crate::fl::xs(&vals), conf }
     });
     run.prop("all_permutations", run.tier.pick(3_000, 120_000), s, perm_case);
-    for c in ["scaling/arithmetic/bit-exact", "scaling/paired/bit-exact", "scaling/unpaired/bit-exact", "scaling/harmonic", "scaling/geometric", "negation/bit-exact", "negation/merge-history/bit-exact", "scaling/merge-history/bit-exact", "reorder/non-identity", "shift/checked", "shift/unpaired-checked", "reorder/all-permutations", "f32/two", "f32/upper", "f64/lower"] {
+    for c in ["scaling/arithmetic/bit-exact", "scaling/paired/bit-exact", "scaling/unpaired/bit-exact", "scaling/harmonic", "scaling/geometric", "negation/bit-exact", "negation/merge-history/bit-exact", "scaling/merge-history/bit-exact", "scaling/edge-upper/arithmetic", "scaling/edge-lower/arithmetic", "scaling/edge-upper/paired", "reorder/non-identity", "shift/checked", "shift/unpaired-checked", "reorder/all-permutations", "f32/two", "f32/upper", "f64/lower"] {
         run.require_class(c);
     }
     run.assumptions.push("scaling is required to be bit-exact only where no intermediate quantity leaves the normal floating-point range (data in [2^-200, 2^200] resp. [2^-25, 2^25], variance-level quantities checked from the exact statistics); other cases are counted as excluded".into());
